@@ -810,8 +810,12 @@ class Coord:
             need_true = n_none
             need_done = W if all(t is None for t in H["ts"]) else None
         else:
-            need_true = min(H["k"], W) if n_none == W else 0
+            # the statement: notify "does wake one if some waiter's timeout is not expiring". Waiters without
+            # a timeout cannot expire, so k notifies issued when n_none of them are registered sleepers must
+            # produce at least min(k, n_none) wake-ups, also when other waiters time out concurrently.
+            need_true = min(H["k"], W) if n_none == W else min(H["k"], n_none)
             need_done = None
+        mixed = H["mode"] != "notify_all" and 0 < n_none < W
         H["need_true"] = need_true
 
         def trues():
@@ -823,7 +827,7 @@ class Coord:
                 load = os.getloadavg()[0]
             except OSError:
                 load = -1.0
-            issues.append({"clause": "notify_all_missed_waiter" if H["mode"] == "notify_all" else "notify_did_not_wake", "liveness": True, "load1": load, "max_poll_gap": self.max_gap,
+            issues.append({"clause": "notify_all_missed_waiter" if H["mode"] == "notify_all" else ("notify_lost_with_racing_timeout" if mixed else "notify_did_not_wake"), "liveness": True, "load1": load, "max_poll_gap": self.max_gap,
                            "text": "phase B (%s x%d, %d waiters, none with a finite timeout among the required ones): only %d wait() returned True within %.0f s, %d required"
                            % (H["mode"], H["k"], W, trues(), BOUND, need_true)})
         time.sleep(random.Random(h).uniform(0.001, 0.004))  # let a surplus wake-up show itself
